@@ -691,7 +691,7 @@ package scipipe
 //@   atcall strings.Replace case-p[C09,C15]: portInfo.portType == "p" ==> params[portName] != "" && replacement == applyMods(params[portName], placeHolder.modifiers)
 //@   atcall strings.Replace case-t[C09,C15]: portInfo.portType == "t" ==> tags[portName] != "" && replacement == applyMods(tags[portName], placeHolder.modifiers)
 //@   loop 0 invariant range: 0 <= $i && $i <= len(placeHolderMatches) && len(placeHolderInfos) == $i
-//@   loop 0 invariant parse: forall j int :: 0 <= j && j < $i ==> placeHolderInfos[j] != nil && placeHolderInfos[j].match == placeHolderMatches[j][0] && placeHolderInfos[j].portName == splitOf(placeHolderMatches[j][2], "|")[0] && len(placeHolderInfos[j].modifiers) == len(splitOf(placeHolderMatches[j][2], "|")) - 1 && (forall k int :: 0 <= k && k < len(placeHolderInfos[j].modifiers) ==> placeHolderInfos[j].modifiers[k] == splitOf(placeHolderMatches[j][2], "|")[k + 1])
+//@   loop 0 invariant parse: forall j int :: 0 <= j && j < $i ==> allocated(placeHolderInfos[j]) && placeHolderInfos[j].match == placeHolderMatches[j][0] && placeHolderInfos[j].portName == splitOf(placeHolderMatches[j][2], "|")[0] && len(placeHolderInfos[j].modifiers) == len(splitOf(placeHolderMatches[j][2], "|")) - 1 && (forall k int :: 0 <= k && k < len(placeHolderInfos[j].modifiers) ==> placeHolderInfos[j].modifiers[k] == splitOf(placeHolderMatches[j][2], "|")[k + 1])
 //@   loop 1 invariant parsed: forall j int :: 0 <= j && j < len(placeHolderInfos) ==> placeHolderInfos[j] != nil && placeHolderInfos[j].match == placeHolderMatches[j][0] && placeHolderInfos[j].portName == splitOf(placeHolderMatches[j][2], "|")[0] && (forall k int :: 0 <= k && k < len(placeHolderInfos[j].modifiers) ==> placeHolderInfos[j].modifiers[k] == splitOf(placeHolderMatches[j][2], "|")[k + 1])
 //@   loop 2 invariant range: 0 <= $i && $i <= len(subStreamIPs[portName]) && len(paths) == $i
 //@   loop 2 invariant joined: forall j int :: 0 <= j && j < $i ==> paths[j] == prependOf(applyMods(subStreamIPs[portName][j].path, placeHolder.modifiers))
